@@ -1172,6 +1172,26 @@ func (g *gen) anchorNode() (nref, string) {
 	}
 }
 
+// farSlot is a query slot at the far end of the uint64 range: MaxUint64, MaxUint64-1, 2^63, 2^63±1, and
+// 2^64 - k for small k around the slot of the anchor (where min+max wraps in a careless midpoint).
+func (g *gen) farSlot(near int) uint64 {
+	max := ^uint64(0)
+	switch g.rng.Intn(8) {
+	case 0, 1:
+		return max
+	case 2:
+		return max - 1
+	case 3:
+		return 1 << 63
+	case 4:
+		return 1<<63 - 1
+	case 5:
+		return 1<<63 + 1
+	default:
+		return max - uint64(g.rng.Intn(near+3))
+	}
+}
+
 var queryKinds = []string{"chain", "closest", "canonat0", "canonat1", "getslot", "insub", "search", "findhead", "nodes", "head", "just", "fin", "pinq"}
 
 func (g *gen) opQuery(kind string) {
@@ -1193,9 +1213,19 @@ func (g *gen) opQuery(kind string) {
 	switch kind {
 	case "chain", "closest", "findhead":
 		g.st.Add("query-anchor", label)
+		if g.chance(0.12) {
+			g.st.Add("query-anchor", "far-slot")
+			q(fmt.Sprintf("%s %s %d", kind, g.rs(n.root), g.farSlot(n.slot)))
+			return
+		}
 		q(fmt.Sprintf("%s %s %d", kind, g.rs(n.root), n.slot))
 	case "canonat0", "canonat1":
 		g.st.Add("query-anchor", label)
+		if g.chance(0.08) {
+			g.st.Add("query-anchor", "far-slot")
+			q(fmt.Sprintf("canonat %s %d %s", g.rs(n.root), g.farSlot(n.slot), kind[7:]))
+			return
+		}
 		// the anchor of canonat is a root; the slot is a free target
 		s := n.slot
 		if g.chance(0.5) {
